@@ -160,6 +160,9 @@ def modelKids (f : Fields) (itext : Option (List Node)) (rootKids rest : List No
   (match itext with | some ks => [pyNode "itext".toList [] ks] | none => []) ++
   pyNode "instance".toList [] [.elem f.name (rootAttrs f) rootKids] :: rest
 
+/-- attributes of `<h:html>`: `**nsmap` -/
+def htmlAttrs (f : Fields) : List (Str × Str) := setAttrs [] (getNsmap f)
+
 /-- `Survey.xml()`: the whole document -/
 def assemble (f : Fields) (itext : Option (List Node)) (rootKids rest bodyKids : List Node) : Node :=
   pyNode "h:html".toList (getNsmap f)
@@ -176,7 +179,7 @@ def xformsNs : Str := "http://www.w3.org/2002/xforms".toList
 mutual
 /-- element-only projection: all text nodes removed (the skeleton does not speak about text) -/
 def eproj : Node → Node
-  | .text b s => .text b s
+  | .text _ _ => .text false []
   | .elem t a ks => .elem t a (eprojKids ks)
 def eprojKids : List Node → List Node
   | [] => []
@@ -203,18 +206,19 @@ def isInstanceTag : Node → Bool
 /-- the skeleton on an element-only tree: `{xhtml}html[{xhtml}head[{xhtml}title, {xforms}model[…]],
     {xhtml}body]`; the first child of `model` with local name `instance` is `{xforms}instance` and
     has exactly one child, whose attribute `id` is the form id -/
+def instOk (fid : Str) (scope : List (Str × Str)) : Option Node → Bool
+  | some (.elem it ia [.elem _ ra _]) =>
+    hasName (ia ++ scope) it xformsNs "instance".toList && lookup "id".toList ra == some fid
+  | _ => false
+
 def skelE (fid : Str) : Node → Bool
   | .elem ht ha [.elem hdt hda [.elem tt ta _, .elem mt ma mk], .elem bt ba _] =>
     hasName ha ht xhtmlNs "html".toList &&
     hasName (hda ++ ha) hdt xhtmlNs "head".toList &&
-    hasName (ta ++ hda ++ ha) tt xhtmlNs "title".toList &&
-    hasName (ma ++ hda ++ ha) mt xformsNs "model".toList &&
+    hasName (ta ++ (hda ++ ha)) tt xhtmlNs "title".toList &&
+    hasName (ma ++ (hda ++ ha)) mt xformsNs "model".toList &&
     hasName (ba ++ ha) bt xhtmlNs "body".toList &&
-    (match mk.find? isInstanceTag with
-     | some (.elem it ia [.elem _ ra _]) =>
-       hasName (ia ++ ma ++ hda ++ ha) it xformsNs "instance".toList &&
-       lookup "id".toList ra == some fid
-     | _ => false)
+    instOk fid (ma ++ (hda ++ ha)) (mk.find? isInstanceTag)
   | _ => false
 
 /-- **the ODK XForm skeleton** (property C01) of a parsed document -/
